@@ -1,4 +1,5 @@
 import AFProofs.Lemmas.Prior
+import AFProofs.Lemmas.PriorDbl
 
 /-!
 # C02 — priors map the unit interval monotonically onto their support
@@ -475,8 +476,8 @@ example : decimalPlaces (Float.ofBits 0x3FE0000000000000) = 15 := by decide +ker
 
 `pyRound n x` (the repaired code's `round(float, n)`) rounds the exact rational `m·10ⁿ / 2^(-e)` of the
 double with `divRoundHalfEven` and converts `k / 10ⁿ` to the nearest double. The integer step is monotone,
-within half a unit of the exact quotient and fixes the decimal grid; that the conversion to the nearest
-double preserves this is validated bit-exactly against CPython by the harness on every run (not a theorem). -/
+within half a unit of the exact quotient and fixes the decimal grid; the whole function is proved
+non-decreasing on doubles below (`round_monotone_on_doubles`). -/
 
 theorem rounding_step_monotone (a b d : Nat) (hd : 0 < d) (h : a ≤ b) :
     divRoundHalfEven a d ≤ divRoundHalfEven b d :=
@@ -507,5 +508,139 @@ theorem uniform_legacy_refuted_tiny_range :
       w1 < v ∧ v < w2) := by
   refine ⟨by decide +kernel, by decide +kernel, by decide +kernel, ?_⟩
   exact ⟨Float.ofBits 0x3CDB05876E5B0120, by decide +kernel⟩
+
+/-! ## the float layer as data: limit gate, exact rounding and clamp on doubles
+
+`Float` comparisons are opaque to the logic, so the statements above say nothing for-all about
+`finish floatSpecial …`. `AFModel/PriorDbl.lean` models a double as data (`Dbl`: sign + magnitude bits, IEEE
+order incl. NaN, ±0, ±inf) and the part of `value_for` after `message.value_for` on it (`finishD`: the same
+generic `gate` and `clamp`, and `pyRoundD` = CPython `round(x, n)`, through which the `Float` rounding
+`pyRound` is *defined*). The driver runs `finishD` beside `finish` on every raw value and the harness
+compares both with the real code bit for bit. All statements below are for every double, every number of
+places and all limits; nothing about special functions is assumed except where stated. -/
+
+/-- the rounding the driver's `Float` instance uses is `pyRoundD` between the bit casts -/
+theorem float_round_is_pyRoundD (n : Nat) (x : Float) :
+    floatSpecial.round n x = (pyRoundD n (Dbl.ofFloat x)).toFloat := rfl
+
+/-- The order on `Dbl` is the order of the exact values (in units of `2^-1074`) on finite doubles. -/
+theorem double_order_is_exact_order (a b : Dbl) (ha : a.isFinite = true) (hb : b.isFinite = true) :
+    a ≤ b ↔ a.exact ≤ b.exact :=
+  Dbl.le_iff_exact a b ha hb
+
+/-- CPython's `round(x, n)` - exact half-even rounding of the binary value to `n` decimals, then the
+nearest double - is non-decreasing on doubles (NaN excluded by `a ≤ b`; ±0 and ±inf included). -/
+theorem round_monotone_on_doubles (n : Nat) (a b : Dbl) (h : a ≤ b) : pyRoundD n a ≤ pyRoundD n b :=
+  pyRoundD_mono n a b h
+
+/-- The same on the exact rational values of finite doubles; the rounded values are finite: the exact
+rounding cannot overflow (numpy's multiply-rint-divide of the pinned commit did:
+`uniform_legacy_refuted_overflow`). -/
+theorem round_monotone_exact (n : Nat) (a b : Dbl) (ha : a.isFinite = true) (hb : b.isFinite = true)
+    (h : a.exact ≤ b.exact) :
+    (pyRoundD n a).isFinite = true ∧ (pyRoundD n b).isFinite = true ∧
+      (pyRoundD n a).exact ≤ (pyRoundD n b).exact := by
+  have fa := pyRoundD_finite n a ha
+  have fb := pyRoundD_finite n b hb
+  refine ⟨fa, fb, ?_⟩
+  rw [← Dbl.le_iff_exact _ _ fa fb]
+  exact pyRoundD_mono n a b ((Dbl.le_iff_exact a b ha hb).mpr h)
+
+/-- Never an out-of-limit value (doubles): whatever `value_for` returns without `ignore_prior_limits` lies
+inside the limits - after rounding and clamp for the uniform prior - and in particular is not NaN. -/
+theorem finishD_in_limits (uniform : Bool) (places : Nat) (L U raw v : Dbl)
+    (h : finishD uniform false places L U raw = .ok v) : L ≤ v ∧ v ≤ U := by
+  unfold finishD at h
+  split at h
+  · cases h
+  · rename_i w hg
+    obtain ⟨hw, hL, hU⟩ := (gate_false_ok_iff L U raw w).mp hg
+    subst hw
+    split at h
+    · cases h
+      simp only [uniformPostD, Bool.false_eq_true, if_false]
+      exact clampD_mem L U _ (Dbl.le_trans L w U hL hU) (pyRoundD_notNaN places w hL.2.1)
+    · cases h
+      exact ⟨hL, hU⟩
+
+/-- The limit exception is raised exactly when the mapped value is outside the limits (or NaN). -/
+theorem finishD_limit_iff (uniform : Bool) (places : Nat) (L U raw : Dbl) :
+    finishD uniform false places L U raw = .limit ↔ ¬ (L ≤ raw ∧ raw ≤ U) := by
+  rw [← gate_false_limit_iff]
+  unfold finishD
+  split
+  · rename_i hg
+    simp [hg]
+  · rename_i w hg
+    rw [hg]
+    constructor
+    · intro hh
+      split at hh <;> cases hh
+    · intro hh
+      cases hh
+
+/-- With limits explicitly ignored a value is always returned. -/
+theorem finishD_ignore (uniform : Bool) (places : Nat) (L U raw : Dbl) :
+    ∃ v, finishD uniform true places L U raw = .ok v := by
+  unfold finishD
+  rw [gate_true_ok]
+  simp only
+  split <;> exact ⟨_, rfl⟩
+
+/-- Gate, rounding and clamp are non-decreasing in the raw value: on doubles, for every number of places,
+with or without `ignore_prior_limits`. -/
+theorem finishD_monotone (uniform ignore : Bool) (places : Nat) (L U raw raw2 a b : Dbl) (h : raw ≤ raw2)
+    (ha : finishD uniform ignore places L U raw = .ok a)
+    (hb : finishD uniform ignore places L U raw2 = .ok b) : a ≤ b := by
+  unfold finishD at ha hb
+  split at ha
+  · cases ha
+  · rename_i wa hga
+    split at hb
+    · cases hb
+    · rename_i wb hgb
+      have ea := gate_ok _ _ _ _ _ hga
+      have eb := gate_ok _ _ _ _ _ hgb
+      subst ea eb
+      cases uniform
+      · simp only [Bool.false_eq_true, if_false] at ha hb
+        cases ha
+        cases hb
+        exact h
+      · simp only [if_true] at ha hb
+        cases ha
+        cases hb
+        have hr := pyRoundD_mono places _ _ h
+        cases ignore
+        · simp only [uniformPostD, Bool.false_eq_true, if_false]
+          obtain ⟨_, hL, hU⟩ := (gate_false_ok_iff L U wa wa).mp hga
+          exact clampD_mono L U _ _ (Dbl.le_trans L wa U hL hU) hr
+        · simpa only [uniformPostD, if_true] using hr
+
+/-- The float-level `value_for` pipeline (raw quantile → round → limit gate → clamp) is non-decreasing in
+the unit value whenever the raw quantile `q` (scipy/libm: `erfinv`, `ndtr`, `log10`, `power`, `exp` and the
+shift/scale arithmetic) is - the only hypothesis left about the double-precision layer. -/
+theorem valueForD_monotone (q : Dbl → Dbl) (hq : ∀ u v, u ≤ v → q u ≤ q v)
+    (uniform ignore : Bool) (places : Nat) (L U u v a b : Dbl) (huv : u ≤ v)
+    (ha : finishD uniform ignore places L U (q u) = .ok a)
+    (hb : finishD uniform ignore places L U (q v) = .ok b) : a ≤ b :=
+  finishD_monotone uniform ignore places L U (q u) (q v) a b (hq u v huv) ha hb
+
+/-- `0.1 + 2^-56`-ish witnesses: the doubles `0.100000000000004`, `0.2` as data -/
+def dL : Dbl := Dbl.ofBits 0x3FB9999999999ABA
+def dU : Dbl := Dbl.ofBits 0x3FC999999999999A
+
+/-- non-vacuity: the off-grid lower limit (the pinned commit returned `0.1 < L` here) is rounded to 15
+places and returned inside the limits; a value above the upper limit raises -/
+example : finishD true false 15 dL dU dL = .ok dL ∧ dL ≤ dL ∧ dL ≤ dU := by decide +kernel
+example : finishD true false 15 dL dU (Dbl.ofBits 0x3FD0000000000000) = .limit := by decide +kernel
+example : dL ≤ dU ∧ pyRoundD 1 dL ≤ pyRoundD 1 dU ∧ (pyRoundD 1 dU).toBits = 0x3FC999999999999A :=
+  ⟨by decide +kernel, round_monotone_on_doubles 1 dL dU (by decide +kernel), by decide +kernel⟩
+/-- NaN never passes the gate; `-0.0` and `0.0` compare equal -/
+example : finishD false false 14 dL dU (Dbl.ofBits 0x7FF8000000000000) = .limit := by decide +kernel
+example : Dbl.ofBits 0x8000000000000000 ≤ Dbl.ofBits 0 ∧ Dbl.ofBits 0 ≤ Dbl.ofBits 0x8000000000000000 := by
+  decide +kernel
+/-- the model's rounding on `Float` and on data agree on the witness (`round(0.100000000000004, 14)`) -/
+example : (pyRound 14 wL).toBits = (pyRoundD 14 dL).toBits.toUInt64 := by decide +kernel
 
 end AF.C02
